@@ -336,8 +336,14 @@ func extractOption(nodes map[string]*chanCall, opts ...Option) (map[string][]any
 				if c.action.optionType == nil {
 					// subgraph
 					optMap[name] = append(optMap[name], opt)
-				} else if optionTypeFits(reflect.TypeOf(opt.options[0]), c.action.optionType, false) { // assume that types of options are the same
-					optMap[name] = append(optMap[name], opt.options...)
+				} else {
+					// one Option may carry options of several types (WithLambdaOption takes ...any): each
+					// of them goes to the nodes that take its type
+					for _, o := range opt.options {
+						if optionTypeFits(reflect.TypeOf(o), c.action.optionType, false) {
+							optMap[name] = append(optMap[name], o)
+						}
+					}
 				}
 			}
 		}
@@ -355,7 +361,10 @@ func extractOption(nodes map[string]*chanCall, opts ...Option) (map[string][]any
 
 			if len(path.path) == 1 {
 				if len(opt.options) == 0 {
-					if opt.maxRunSteps > 0 && curNode.action.optionType == nil && !curNode.action.isPassthrough {
+					if opt.maxRunSteps > 0 {
+						if curNode.action.optionType != nil || curNode.action.isPassthrough {
+							return nil, fmt.Errorf("a run-time step limit can only be designated to a graph node, node[%s] is none", path)
+						}
 						// a run-time step limit designated to a nested graph: hand it on as the graph's own option
 						optMap[curNodeKey] = append(optMap[curNodeKey], Option{maxRunSteps: opt.maxRunSteps})
 					}
@@ -363,15 +372,21 @@ func extractOption(nodes map[string]*chanCall, opts ...Option) (map[string][]any
 					// node callback also won't be passed
 					continue
 				}
-				if curNode.action.optionType == nil {
+				if curNode.action.isPassthrough {
+					// a pass-through node has no option type either, but it is not a graph: it takes no option
+					return nil, fmt.Errorf("option type[%v] designated to the pass-through node[%s], which takes no option",
+						reflect.TypeOf(opt.options[0]), path)
+				} else if curNode.action.optionType == nil {
 					nOpt := opt.deepCopy()
 					nOpt.paths = []*NodePath{}
 					optMap[curNodeKey] = append(optMap[curNodeKey], nOpt)
 				} else {
 					// designate to component
-					if !optionTypeFits(reflect.TypeOf(opt.options[0]), curNode.action.optionType, true) { // assume that types of options are the same
-						return nil, fmt.Errorf("option type[%v] is different from which the designated node[%s] expects[%s]",
-							reflect.TypeOf(opt.options[0]), path, curNode.action.optionType.String())
+					for _, o := range opt.options {
+						if !optionTypeFits(reflect.TypeOf(o), curNode.action.optionType, true) {
+							return nil, fmt.Errorf("option type[%v] is different from which the designated node[%s] expects[%s]",
+								reflect.TypeOf(o), path, curNode.action.optionType.String())
+						}
 					}
 					optMap[curNodeKey] = append(optMap[curNodeKey], opt.options...)
 				}
